@@ -172,6 +172,8 @@ package dns
 //@   ensures nofq:  len(s) > 0 && !IsFqdnSpec(s) ==> err != nil
 //@   ensures acc:   !compress && err == nil && len(s) > 0 ==> ns63(s, 0, 0, false)
 //@   ensures rng:   err == nil && len(s) > 0 ==> off <= off1 && off1 <= len(msg)
+// the exported wrapper refuses nothing the packer accepts (the length that counts is the wire length, not the text's)
+//@   ensures conv:  len(s) > 0 && IsFqdnSpec(s) && ns63(s, 0, 0, false) && off + nswire(s, 0, 0, 0) + (isdot(s) ? 0 : 1) <= len(msg) ==> err == nil
 
 // Compression pointers are offsets from the start of the message (RFC 1035 4.1.4): every hand-written helper that
 // packs or unpacks a name hands the name codec the message buffer itself - not a sub-slice that starts at the RDATA -
